@@ -454,13 +454,14 @@ func c13Scripts(c *vctx) []c13Script {
 
 func c13Emit(c *vctx, o c13Obs) {
 	if o.Err != "" {
-		c.Case("error", false, 1, "mkCase (mkCfg 1 1 0 false) 0 [Tick (-1)] true [] 0 []", o.Err)
+		c.Case("error", false, 1, "mkCase (mkCfg 1 1 0 false) 0 [Tick (-1)] true [] 0 [] []", o.Err)
 		return
 	}
 	R := c13Refreshability.Milliseconds()
 	var tr []string
 	var samples []string
 	var forcedAfterRemoval []string
+	var forcedOkHasFile []string
 	D := o.Acq
 	upd := func(d int64) {
 		if d > D {
@@ -549,6 +550,8 @@ func c13Emit(c *vctx, o c13Obs) {
 			ticksTo(ev.T, true)
 			upd(ev.T - fstart)
 			if ev.Alive {
+				// reported success: the holder must own a lock file now
+				forcedOkHasFile = append(forcedOkHasFile, coqBool(ev.Own > 0))
 				tc := fsave
 				if tc < 0 {
 					tc = ev.T
@@ -589,8 +592,8 @@ func c13Emit(c *vctx, o c13Obs) {
 	if len(tr) > 0 {
 		trace = "(" + strings.Join(tr, " ++ ") + ")"
 	}
-	term := fmt.Sprintf("mkCase (mkCfg ParamsC13.refreshability_timeout_ms (poll_of ParamsC13.refresh_interval_ms) %s %s) %s %s %s %s %s %s",
-		coqZ(D), coqBool(c13IsPatched()), coqZ(o.Acq), trace, coqBool(aliveEnd), coqList(samples), coqZ(int64(left)), coqList(forcedAfterRemoval))
+	term := fmt.Sprintf("mkCase (mkCfg ParamsC13.refreshability_timeout_ms (poll_of ParamsC13.refresh_interval_ms) %s %s) %s %s %s %s %s %s %s",
+		coqZ(D), coqBool(c13IsPatched()), coqZ(o.Acq), trace, coqBool(aliveEnd), coqList(samples), coqZ(int64(left)), coqList(forcedAfterRemoval), coqList(forcedOkHasFile))
 	sb, _ := json.Marshal(o.Script)
 	c.Hist("kind=" + kind)
 	c.Case(kind, len(o.Events) > 8, len(o.Events), term, fmt.Sprintf("script=%s D=%dms -> %s", string(sb), D, strings.Join(hs, " ")))
